@@ -21,7 +21,7 @@ Section P.
   Definition check_sdp (w : vec) (tol : t) : sdp_result :=
     if oltb O tol (o0 O) then SdpValueError
     else if existsb (fun a => oltb O a (oopp O tol)) w then SdpNonPSD
-    else if existsb (fun a => oltb O (oabs O a) tol) w then SdpNotDefinite
+    else if existsb (fun a => oleb O (oabs O a) tol) w then SdpNotDefinite
     else SdpDefinite.
 
   (* diagonal branch: np.diag(np.sqrt(np.maximum(0, np.diag(metric)))) *)
